@@ -3,11 +3,11 @@ from common import *
 
 CLAIMED = True
 LEVEL = 'proof'
-LEVEL_TEXT = ('Proof: 27 Coq theorems in Properties/C17.v. Thin lines (12, model coq/Model/Line.v of BresenhamParameters::new / Bresenham::next / Points), '
+LEVEL_TEXT = ('Proof: 29 Coq theorems in Properties/C17.v (+ the source-tie part C17_src*). Thin lines (14, model coq/Model/Line.v of BresenhamParameters::new / Bresenham::next / Points), '
               'for ALL lines with coordinates within +-2^28: first point = start, last = end, max(|dx|,|dy|)+1 points, each step is one '
               'pixel along the major axis and 0 or 1 along the minor axis, every point within half a pixel of the ideal line '
               '(2|cross| <= dmaj; 4 cross^2 <= dx^2+dy^2; projection inside the segment), monotone, closed form, translation, no i32 '
-              'overflow. Stroked lines (9, model coq/Model/Thickline.v of next_all/previous_all, ParallelsIterator, ThickPoints, '
+              'overflow. Stroked lines (15, model coq/Model/Thickline.v of next_all/previous_all, ParallelsIterator, ThickPoints, '
               'StyledPixelsIterator), for ALL lines and widths: width 1 = points() in order, width 0 / no colour draws nothing, every '
               'stroke of width >= 1 starts with exactly points() (contains the thin line), ParallelsIterator stops after <= 3w+2 '
               'parallels (termination, pixel count bound), translation equivariance, NO PIXEL TWICE (C17_thick_no_duplicate, via disjoint '
